@@ -1,7 +1,7 @@
 """C03 Errors are reported if and only if the call failed; results are finite."""
 from vlib.core import Group
 from vlib import audit
-from . import common, C01, C05, C06, C09, C10
+from . import common, C01, C05, C06, C09, C10, C13
 
 LEVEL = "proof"
 EXPLANATION = ("Protocol obligations of every function under contract: K1 contracts (scalar accessors, closed-form functions) "
@@ -56,6 +56,11 @@ def groups(sc, tier):
     for g in refr:
         g.name = "C03.via_" + g.name
     gs += refr
+    # crystal diffraction: Bragg angle, Q, atomic factors (a failure carries exactly one error; a zero factor is no failure), bad inputs of F_H
+    diffr = [g for g in C13.groups(sc, tier) if g.name in ("C13.K2.Bragg_angle", "C13.K2.Q_scattering_amplitude", "C13.K2.Atomic_Factors", "C13.K5.F_H.bad_input")]
+    for g in diffr:
+        g.name = "C03.via_" + g.name
+    gs += diffr
     for g in gs:
         if g.name.startswith("C01."):
             g.name = "C03.via_" + g.name
